@@ -54,6 +54,7 @@ pub struct FeeSplitMonitor {
     pub zero_liquidity_steps: u32,
     pub protocol_collects: u32,
     pub protocol_collects_nonzero: u32,
+    pub adaptive_steps: u32,
 }
 
 impl FeeSplitMonitor {
@@ -71,7 +72,13 @@ impl FeeSplitMonitor {
         let mut gap = false;
         for (i, s) in o.steps.iter().enumerate() {
             self.steps_checked += 1;
-            if s.fee_rate != pre.pool.fee_rate as u32 {
+            if h.w.pools[h.pool].adaptive {
+                // the schedule itself is decided by C14; here only the bounds of the rate entering the fee formula
+                if s.fee_rate < pre.pool.fee_rate as u32 || s.fee_rate > 100_000 {
+                    return Err(format!("step {i}: adaptive pool charged rate {} outside [static {}, 100000]", s.fee_rate, pre.pool.fee_rate));
+                }
+                self.adaptive_steps += 1;
+            } else if s.fee_rate != pre.pool.fee_rate as u32 {
                 return Err(format!("step {i}: charged rate {} on a static pool whose fee rate is {}", s.fee_rate, pre.pool.fee_rate));
             }
             let stopped_short = s.sqrt_price_after != s.sqrt_price_target;
@@ -178,7 +185,7 @@ impl FeeSplitMonitor {
             let p = sqrt_price_from_tick_index(*t);
             p >= lo && p <= hi
         });
-        if single_segment && p0 != p1 {
+        if single_segment && p0 != p1 && !h.w.pools[h.pool].adaptive {
             let l = pre.pool.liquidity;
             let (inf, outf) = if a_to_b { (a_frac(l, p0, p1), b_frac(l, p0, p1)) } else { (b_frac(l, p0, p1), a_frac(l, p0, p1)) };
             let in_model = ceil_div(&inf.0, &inf.1);
@@ -278,6 +285,7 @@ pub fn check_history(case: &HistoryCase, l: &mut Local) -> Result<(), String> {
     l.count_n("zero_liquidity_steps", m.zero_liquidity_steps as u64);
     l.count_n("protocol_fee_collections", m.protocol_collects as u64);
     l.count_n("protocol_fee_collections_nonzero", m.protocol_collects_nonzero as u64);
+    l.count_n("adaptive_pool_steps_checked", m.adaptive_steps as u64);
     if m.multi_step_nontrivial {
         l.count("nontrivial_histories");
         l.nontrivial(hash_of(case));
